@@ -679,12 +679,12 @@ void OPNMIDIplay::realTime_Controller(uint8_t channel, uint8_t type, uint8_t val
         break;
 
     case 7: // Change volume
-        m_midiChannels[channel].volume = value;
+        m_midiChannels[channel].volume = (value < 128) ? value : 127;
         noteUpdateAll(channel, Upd_Volume);
         break;
 
     case 74: // Change brightness
-        m_midiChannels[channel].brightness = value;
+        m_midiChannels[channel].brightness = (value < 128) ? value : 127;
         noteUpdateAll(channel, Upd_Volume);
         break;
 
@@ -706,7 +706,7 @@ void OPNMIDIplay::realTime_Controller(uint8_t channel, uint8_t type, uint8_t val
         break;
 
     case 11: // Change expression (another volume factor)
-        m_midiChannels[channel].expression = value;
+        m_midiChannels[channel].expression = (value < 128) ? value : 127;
         noteUpdateAll(channel, Upd_Volume);
         break;
 
